@@ -18,7 +18,8 @@ def sh(cmd, timeout=None, cwd=None, env=None, input=None):
 class Lock:
     def __init__(self, name):
         os.makedirs(ombuild.SCRATCH_ROOT, exist_ok=True)
-        self.path = os.path.join(ombuild.SCRATCH_ROOT, name + ".lock")
+        tag = hashlib.sha1(VERIF.encode()).hexdigest()[:8]
+        self.path = os.path.join(ombuild.SCRATCH_ROOT, "%s-%s.lock" % (name, tag))
     def __enter__(self):
         self.f = open(self.path, "w"); fcntl.flock(self.f, fcntl.LOCK_EX); return self
     def __exit__(self, *a):
@@ -57,8 +58,12 @@ def gate():
     return bad
 
 def coq_make(targets=None, timeout=1500):
-    """Full .vo build (never -vos) of the project or of the given targets. Returns (ok, log)."""
+    """Full .vo build (never -vos) of the project or of the given targets. Returns (ok, log).
+    The translators are run first, so coq/Gen/*.v always reflects /repo's current sources."""
     with Lock("coq"):
+        import gencoq
+        global TRANSLATOR_PROBLEMS
+        TRANSLATOR_PROBLEMS = gencoq.run_all()
         files = [f for f in coq_files()]
         rc, out = sh(["coq_makefile", "-f", "_CoqProject", "-o", "Makefile"] + files, cwd=COQ)
         if rc != 0: return False, out
@@ -69,12 +74,8 @@ def coq_make(targets=None, timeout=1500):
 def build_model(timeout=600):
     """Extract the executable models and build the OCaml driver."""
     with Lock("extract"):
-        rc, out = sh(["timeout", str(timeout), "coqc", "-Q", COQ, "OM", "Extract.v"], cwd=EXTRACT)
-        if rc != 0: return False, out
-        rc, out2 = sh(["ocamlfind", "ocamlopt", "-O3", "-w", "-a", "model.mli", "model.ml", "driver.ml", "-o", "omm"], cwd=EXTRACT)
-        if rc != 0:
-            rc, out2 = sh(["ocamlfind", "ocamlopt", "-w", "-a", "model.mli", "model.ml", "driver.ml", "-o", "omm"], cwd=EXTRACT)
-        return rc == 0, out + out2
+        rc, out = sh(["timeout", str(timeout), os.path.join(EXTRACT, "build.sh")], cwd=EXTRACT)
+        return rc == 0, out
 
 def model_stale():
     omm = os.path.join(EXTRACT, "omm")
@@ -82,9 +83,11 @@ def model_stale():
     t = os.path.getmtime(omm)
     for rel in coq_files():
         if os.path.getmtime(os.path.join(COQ, rel)) > t: return True
-    for f in ("Extract.v", "driver.ml"):
+    for f in ("gen_extract.py", "prelude.ml", "main.ml", "build.sh"):
         if os.path.getmtime(os.path.join(EXTRACT, f)) > t: return True
     return False
+
+TRANSLATOR_PROBLEMS = []
 
 THM = re.compile(r"^\s*(Theorem|Example)\s+([A-Za-z0-9_']+)", re.M)
 
@@ -162,6 +165,29 @@ def run_harness(binary, case_lines, workdir, timeout=600, env=None, tag="cases",
             break
     return rc_final, outs, errs
 
+def fhex(x):
+    return float(x).hex()
+
+def fcase(comp, ints, floats):
+    """case line of the float wire"""
+    return "%s %s | %s" % (comp, " ".join(str(int(i)) for i in ints), " ".join(fhex(x) for x in floats))
+
+def fparse(line):
+    """'i1 i2 | x1 x2' -> ([ints], [floats]); a line without '|' has no floats; 'CRASH n' -> (None, None)"""
+    if line.startswith("CRASH"): return None, None
+    if "|" in line:
+        a, b = line.split("|", 1)
+    else:
+        a, b = line, ""
+    return [int(t) for t in a.split()], [float.fromhex(t) if ("x" in t or "n" in t) else float(t) for t in b.split()]
+
+def close(a, b, rel=1e-10, scale=None, abs_=0.0):
+    """rounding-class comparison: |a-b| <= rel*scale + abs_, scale defaults to max(|a|,|b|,tiny)"""
+    if a != a or b != b: return (a != a) == (b != b)
+    if a == b: return True
+    s = scale if scale is not None else max(abs(a), abs(b))
+    return abs(a - b) <= rel * s + abs_
+
 class Findings:
     def __init__(self):
         p = os.path.join(VERIF, "known_findings.json")
@@ -185,6 +211,7 @@ class Check:
                         distinct_nontrivial=0, rule="", samples=[], explanation="")
         self.assumptions = []
         self.findings = Findings()
+        self.translator_problems = []; self.broken_theorems = []; self.bdir = None
         self.notes = []
         self.workdir = os.path.join(ombuild.SCRATCH_ROOT, "w-%s-%d" % (prop, os.getpid()))
         os.makedirs(self.workdir, exist_ok=True)
@@ -210,6 +237,9 @@ class Check:
             self.violation("gate", "forbidden construct in the development: " + "; ".join(bad[:5]),
                            dict(kind="gate", hits=bad), found_input=False)
         ok, log = coq_make()
+        for pr in TRANSLATOR_PROBLEMS:
+            self.notes.append("translator: " + pr)
+        self.translator_problems = list(TRANSLATOR_PROBLEMS)
         if not ok:
             self.notes.append("coq make reported errors")
             open(os.path.join(self.workdir, "coq_make.log"), "w").write(log)
@@ -227,6 +257,51 @@ class Check:
                         self.notes.append("theorem %s depends on %s" % (t, a))
         self.cov["trusted_base"] = sorted(set(self.cov["trusted_base"]) | {"Coq 8.16.1 kernel (coqc, vm_compute; no native_compute)"})
         return res
+
+    def prepare(self, prop_file, harness_src=None, extra_link=None, apps=True, opt="-O1"):
+        """Standard opening of a check: scratch build of /repo's working tree, Coq build + theorem accounting,
+        extraction, harness build.  Every failure is reported as a violation without failing input (the tie
+        or the proof no longer checks).  Returns (bdir, harness_binary) - either may be None."""
+        try:
+            bdir, h = ombuild.ensure_build()
+        except RuntimeError as e:
+            self.violation("build", "the working tree does not build: %s" % e, dict(kind="build", error=str(e)), found_input=False)
+            bdir = None
+        self.bdir = bdir
+        res = self.proofs(prop_file) if prop_file else None
+        self.proof_result = res
+        if res is not None:
+            for pr in self.translator_problems:
+                self.violation("translator:" + pr[:60], "translator could not regenerate the model from the current source: %s" % pr,
+                               dict(kind="translator", problem=pr), found_input=False)
+            if not res["ok"]:
+                failed = [t for t, ok in res["theorems"] if not ok]
+                self.broken_theorems = failed
+                self.violation("proof", "property theorems no longer check: %s" % ", ".join(failed[:6]),
+                               dict(kind="proof", theorems=failed, log=res["log"][-3000:]), found_input=False)
+        if model_stale():
+            ok, log = build_model()
+            if not ok:
+                self.violation("extract", "model extraction failed", dict(kind="extract", log=log[-3000:]), found_input=False)
+        hb = None
+        if bdir and harness_src:
+            src = os.path.join(VERIF, "harness", harness_src)
+            hb = os.path.join(bdir, os.path.splitext(harness_src)[0])
+            deps = [src] + [os.path.join(VERIF, "harness", f) for f in os.listdir(os.path.join(VERIF, "harness")) if f.endswith(".h")]
+            if not os.path.exists(hb) or os.path.getmtime(hb) < max(os.path.getmtime(d) for d in deps):
+                try:
+                    ombuild.build_harness(bdir, src, hb, extra=extra_link, opt=opt)
+                except RuntimeError as e:
+                    self.violation("harness-build", "harness does not compile against the working tree: %s" % e,
+                                   dict(kind="build", error=str(e)), found_input=False)
+                    hb = None
+        return bdir, hb
+
+    def drop_proof_violation_if(self, found_concrete):
+        """When a concrete failing input was found for a broken proof/correspondence, the generic
+        'proof' no-failing-input entry is redundant: keep the concrete one first."""
+        if found_concrete:
+            self.violations.sort(key=lambda v: 0 if v[3] else 1)
 
     def replay_path(self, n):
         return os.path.join("evidence", "replay", "%s-%d.json" % (self.prop, n))
